@@ -16,6 +16,8 @@ depends only on replicated data; structural):
  R6 K6  the braid's base state does not depend on segment boundaries: where get_fact_perspective
         reuses a segment's end-of-segment fact index, the "no fact updates" scan that licenses it is
         not restricted to the prefix up to `location`.
+ R7 K2  duplicates are recognised: Transaction::locate answers "absent" only after the committed graph and
+        every transaction tip were searched.
 Not decided: equality of heads/facts/hello head over all delivery histories (value-level)."""
 from rules.core import rt, pat
 
@@ -29,6 +31,7 @@ def run(F, rep, tier):
     rt.rule_strand_order(F, rep)
     rt.rule_fold_siblings(F, rep)
     rt.rule_vm_merge(F, rep)
+    rt.rule_locate(F, rep)
     cm = F.fn(rt.TX + "Transaction::commit")
     hs = [c for c in cm.calls if c.path and "head_set::HeadSet" in c.path]
     pushes = [c for c in hs if c.name == "push"]
